@@ -105,6 +105,14 @@ pub proof fn lemma_strz_is_longest(d: Seq<u8>, off: int, t: Seq<u8>, n: int)
 
 // ---- A1: every slice has at most isize::MAX elements (language invariant)
 pub mod ax { use vstd::prelude::*;
+pub broadcast proof fn lemma_subrange_subrange(s: Seq<u8>, a: int, b: int, c: int, d: int)
+    requires 0 <= a <= b <= s.len(), 0 <= c <= d <= b - a
+    ensures #[trigger] s.subrange(a, b).subrange(c, d) == s.subrange(a + c, a + d)
+{ assert(s.subrange(a, b).subrange(c, d) =~= s.subrange(a + c, a + d)); }
+pub broadcast proof fn lemma_slice_ext(a: &[u8], b: &[u8])
+    requires a@ == b@
+    ensures #![trigger a@, b@] a == b
+{ assert(a@ =~= b@); }
 #[verifier::external_body]
 pub broadcast proof fn axiom_slice_len_bound(s: &[u8]) ensures #[trigger] s@.len() <= isize::MAX {}
 }
